@@ -34,7 +34,8 @@ FLOORS = {'files_loaded': 60, 'cells_compared': 2000,
           'shared_members_compared': 100, 'cached_values_compared': 300,
           'names_compared': 30, 'ignore_sets': 20, 'storage_forms_seen': 9,
           'evaluations_compared': 1000, 'date1904_workbooks': 4,
-          'sheet_scoped_twin_names': 5, 'archives_parsed_again': 20}
+          'sheet_scoped_twin_names': 5, 'archives_parsed_again': 20,
+          'names_on_uncached_formula_cells': 10}
 ANCHOR_FUNCS = {
     'xlcalculator/reader.py': ['Reader.read', 'Reader.read_cells',
                                'Reader.read_defined_names'],
@@ -301,6 +302,22 @@ def run(ctx):
                 k = rng.choice(filled)
                 sp.names['NmCell'] = ('ref', s0, k[1], k[2], True, True)
             sp.names['NmRange'] = ('rng', s0, 1, 1, 2, 3, (True,) * 4)
+            # a name bound to a FORMULA cell that carries no cached result (as
+            # files written by other programs than Excel have them), and a
+            # formula that uses the name
+            kf1, kf2 = (s0, 10, 1), (s0, 10, 2)
+            af1 = ('bin', '+', ('call', 'SUM', [('lit', 1, '1'),
+                                                ('lit', 2, '2')]),
+                   ('lit', 4, '4'))
+            af2 = ('bin', '*', ('name', 'NmFormula'), ('lit', 2, '2'))
+            for key, ast in ((kf1, af1), (kf2, af2)):
+                text = ref.render(ast)
+                sp.sb.put_formula(key[0], key[1], key[2], text)
+                sp.expect[key] = {'kind': 'formula', 'formula': text,
+                                  'cached': None, 'uses_name': key == kf2}
+                sp.wbcells[key] = ('f', ast)
+            sp.names['NmFormula'] = ('ref', s0, 10, 1, True, True)
+            ctx.event('names_on_uncached_formula_cells')
             for nm, t in sp.names.items():
                 sp.sb.names.append((nm, build.name_target(t)))
             if len(sheets) > 1 and rng.random() < 0.5:
